@@ -40,8 +40,14 @@ static int g_sent, g_pkts, g_recons;
 static unsigned g_alarm_period = 120;
 static void on_alarm(int sig) {
     (void)sig;
-    if (vrt_alarm_should_wait(g_alarm_period, 6))
-        return; /* slow or starved, not stuck: keep waiting (bounded) */
+    /* keep waiting (bounded) only while the session makes progress: the recorder's own polling loops burn CPU, so "the
+     * process is busy" alone does not mean the library is getting anywhere */
+    static long last_progress = -1;
+    long        progress      = (long)g_sent + g_pkts + g_recons;
+    if (progress != last_progress && vrt_alarm_should_wait(g_alarm_period, 6)) {
+        last_progress = progress;
+        return;
+    }
     /* async-signal-unsafe stdio is acceptable here: the process is about to exit */
     if (g_ev) {
         fprintf(g_ev, "{\"ev\":\"Timeout\",\"phase\":\"%s\",\"sent\":%d,\"pkts\":%d,\"recons\":%d}\n", g_phase, g_sent, g_pkts, g_recons);
